@@ -112,6 +112,17 @@ impl C12 {
         let src = live[rng.below(live.len())];
         let src_kind = kind_of(&f.xot, src);
         let with_prefixes = rng.chance(1, 3);
+        // an earlier clone_with_prefixes call on another node of the forest: nothing of it may reach this clone
+        if rng.chance(1, 3) {
+            let attached: Vec<Node> = live.iter().copied().filter(|n| kind_of(&f.xot, *n) == MKind::Elem && f.xot.parent(*n).is_some() && *n != src).collect();
+            if !attached.is_empty() {
+                let other = attached[rng.below(attached.len())];
+                if let Ok(c0) = guard(|| f.xot.clone_with_prefixes(other)) {
+                    let _ = guard(|| f.xot.remove(c0));
+                    ctx.count("clones_after_an_earlier_clone_with_prefixes");
+                }
+            }
+        }
         let before = match forest_state(&f.xot) {
             Ok(b) => b,
             Err(_) => return,
@@ -392,6 +403,34 @@ impl C12 {
                 }
             }
         }
+        // after all those calls on attached elements: an UNATTACHED copy has nothing to inherit, so
+        // clone_with_prefixes of it is exactly clone_node of it
+        let attached: Vec<Node> = built.flat().into_iter().filter(|n| xot.is_element(*n) && xot.parent(*n).is_some()).collect();
+        for src in attached.into_iter().take(3) {
+            let r = guard(|| {
+                let c0 = xot.clone_node(src);
+                let c2 = xot.clone_with_prefixes(c0);
+                (snap::snap_tree(&xot, c0), snap::snap_tree(&xot, c2))
+            });
+            match r {
+                Ok((Ok(t0), Ok(t2))) => {
+                    if t0 != t2 {
+                        ctx.violation(
+                            "clone_with_prefixes of an unattached element differs from the element (nothing can be inherited there)",
+                            "C12/clone_with_prefixes/unattached-source/differs".to_string(),
+                            J::obj().set("tree", a.to_json()).set("unattached_source", t0.to_json()).set("clone", t2.to_json()),
+                        );
+                        return;
+                    }
+                    ctx.count("clone_with_prefixes_of_unattached_copies");
+                }
+                Err(p) => {
+                    ctx.violation("cloning panicked", format!("C12/clone_with_prefixes/panic/{}", p.sig()), J::obj().set("tree", a.to_json()).set("panic", J::s(p.short())));
+                    return;
+                }
+                _ => {}
+            }
+        }
         ctx.nontrivial(a.structural_hash());
     }
 
@@ -414,7 +453,21 @@ impl C12 {
             Ok(b) => b,
             Err(_) => return,
         };
-        let copy = match guard(|| f.xot.clone()) {
+        // Clone::clone, or Clone::clone_from into a store with a history of its own
+        let via_clone_from = rng.bool();
+        let copy = match guard(|| {
+            if via_clone_from {
+                let mut t = Xot::new();
+                t.add_prefix("zold");
+                t.add_name("zoldn");
+                t.add_namespace("urn:zold");
+                let _ = t.parse("<zq:old xmlns:zq=\"urn:zold\" zq:k=\"v\"><x/></zq:old>");
+                t.clone_from(&f.xot);
+                t
+            } else {
+                f.xot.clone()
+            }
+        }) {
             Ok(c) => c,
             Err(p) => {
                 ctx.violation("Xot::clone panicked", format!("C12/Xot::clone/panic/{}", p.sig()), J::obj().set("panic", J::s(p.short())));
@@ -424,7 +477,7 @@ impl C12 {
         let start_desc = trunc(&f.show_real(), 1000);
         // every handle denotes an equal node in the copy
         match forest_state(&copy) {
-            Ok(s) if s == before => ctx.count("xot_clone_equal"),
+            Ok(s) if s == before => ctx.count(if via_clone_from { "xot_clone_from_equal" } else { "xot_clone_equal" }),
             other => {
                 ctx.violation(
                     "handles denote other nodes in the cloned Xot",
